@@ -1,6 +1,7 @@
 import St4sd.Model.Hash
 import St4sd.Lemmas.C16Split
 import St4sd.Lemmas.C16Decode
+import St4sd.Lemmas.C16Fs
 /-!
 # C16 — Memoization hashes identify equivalent work and nothing else
 
@@ -453,5 +454,252 @@ example : ¬ SameWork ⟨none, [], "x".toList, ["0a:copy".toList]⟩ ⟨none, []
   decide
 example : SameWork ⟨none, [], "x".toList, ["0a:copy".toList, "ff:ref".toList]⟩
     ⟨none, [], "x".toList, ["ff:ref".toList, "0a:copy".toList]⟩ := by decide
+
+/-! ### histories: the hash is a function of the *current* contents of the file system
+
+`Model/HashFs.lean`: references name paths, the hash is computed on the file system as it is at that moment
+(`hashesFs`), the file system evolves by `Op`s (rewrite in place / replace / touch / remove / rename / re-create
+the experiment object).  The model has no state but the file system; the theorems below say that — of the file
+system — only `view` (what exists at the referenced paths, and the contents of the files) matters: no
+modification time, inode, length-and-time signature or earlier content can influence a hash, so an
+implementation that reuses a digest computed for an earlier content of a path is outside the model (the
+harness compares every observation of a history with `observeHistory`). -/
+
+/-- two file systems show the same thing (nothing / a directory / a file with the same contents) at every path
+a component of `cs` refers to -/
+def AgreeOn (cs : List SComp) (fs₁ fs₂ : Fs) : Prop :=
+  ∀ c ∈ cs, ∀ r ∈ c.refs, view fs₁ r.loc.path = view fs₂ r.loc.path
+
+private theorem resolve_comp_congr (fs₁ fs₂ : Fs) (c : SComp)
+    (h : ∀ r ∈ c.refs, view fs₁ r.loc.path = view fs₂ r.loc.path) : c.resolve fs₁ = c.resolve fs₂ := by
+  have : c.refs.map (SRef.resolve fs₁) = c.refs.map (SRef.resolve fs₂) :=
+    List.map_congr_left (fun r hr => resolve_congr fs₁ fs₂ r (h r hr))
+  simp [SComp.resolve, this]
+
+/-- **The hash is a function of the current contents.**  Strong and fuzzy hashes of every component of the
+graph are the same on any two file systems that agree — in existence, kind and file contents — on the
+referenced paths; modification times, inodes and everything else are not read. -/
+theorem hash_function_of_current_contents (md5 : S → S) (fuzzy : Bool) (bps : Blueprints) (cs : List SComp)
+    (fs₁ fs₂ : Fs) (h : AgreeOn cs fs₁ fs₂) :
+    hashesFs md5 fuzzy bps fs₁ cs = hashesFs md5 fuzzy bps fs₂ cs := by
+  unfold hashesFs
+  rw [List.map_congr_left (fun c hc => resolve_comp_congr fs₁ fs₂ c (h c hc))]
+
+/-- **Stale state cannot matter.**  Whatever two histories did before (from whatever initial file systems):
+if the file systems they end in agree on the referenced paths, the hashes computed then are equal. -/
+theorem hash_ignores_history (md5 : S → S) (fuzzy : Bool) (bps : Blueprints) (cs : List SComp) (fs₁ fs₂ : Fs)
+    (ops₁ ops₂ : List Op) (h : AgreeOn cs (run fs₁ ops₁) (run fs₂ ops₂)) :
+    hashesFs md5 fuzzy bps (run fs₁ ops₁) cs = hashesFs md5 fuzzy bps (run fs₂ ops₂) cs :=
+  hash_function_of_current_contents md5 fuzzy bps cs _ _ h
+
+private theorem states_getLast (fs : Fs) (ops : List Op) : (states fs ops).getLast? = some (run fs ops) := by
+  induction ops generalizing fs with
+  | nil => rfl
+  | cons op ops ih =>
+    have hne : states (step fs op) ops ≠ [] := by cases ops <;> simp [states]
+    simp only [states, run, List.foldl_cons]
+    rw [List.getLast?_cons_of_ne_nil hne]
+    exact ih (step fs op)
+
+/-- the last observation of a history is the hash of the final file system (`observeHistory` is what the
+harness compares with the real hashes after every step) -/
+theorem observeHistory_last (md5 : S → S) (fuzzy : Bool) (bps : Blueprints) (cs : List SComp) (fs : Fs)
+    (ops : List Op) :
+    (observeHistory md5 fuzzy bps cs fs ops).getLast? = some (hashesFs md5 fuzzy bps (run fs ops) cs) := by
+  simp [observeHistory, List.getLast?_map, states_getLast]
+
+/-- changing only the modification time of a file changes no hash -/
+theorem hash_ignores_touch (md5 : S → S) (fuzzy : Bool) (bps : Blueprints) (cs : List SComp) (fs : Fs) (p : S)
+    (t : Nat) : hashesFs md5 fuzzy bps (step fs (.touch p t)) cs = hashesFs md5 fuzzy bps fs cs :=
+  hash_function_of_current_contents md5 fuzzy bps cs _ _ (fun _ _ _ _ => view_touch fs p t _)
+
+/-- re-creating the experiment object (or resetting the cached hashes) changes no hash -/
+theorem hash_ignores_reload (md5 : S → S) (fuzzy : Bool) (bps : Blueprints) (cs : List SComp) (fs : Fs) :
+    hashesFs md5 fuzzy bps (step fs .reload) cs = hashesFs md5 fuzzy bps fs cs := rfl
+
+/-- **hash after update**: after `c` has been written to `p` the hashes are those of a file system that holds
+`c` at `p` — whatever was at `p` before (other contents of the same or another length, nothing), whatever the
+modification times and inodes before and after. -/
+theorem hash_after_update (md5 : S → S) (fuzzy : Bool) (bps : Blueprints) (cs : List SComp) (fs fs' : Fs)
+    (p c : S) (t i t' i' : Nat) (h : ∀ q, q ≠ p → view fs q = view fs' q) :
+    hashesFs md5 fuzzy bps (step fs (.write p c t i)) cs = hashesFs md5 fuzzy bps (step fs' (.write p c t' i')) cs := by
+  apply hash_function_of_current_contents
+  intro _ _ r _
+  rw [view_write, view_write]
+  by_cases hq : r.loc.path = p
+  · simp [hq]
+  · simp [hq, h _ hq]
+
+/-- writing other contents and then the original contents back (at any times) restores every hash -/
+theorem hash_after_write_back (md5 : S → S) (fuzzy : Bool) (bps : Blueprints) (cs : List SComp) (fs : Fs)
+    (p x y : S) (t i t' i' : Nat) (hx : view fs p = some (some x)) :
+    hashesFs md5 fuzzy bps (step (step fs (.write p y t i)) (.write p x t' i')) cs = hashesFs md5 fuzzy bps fs cs := by
+  apply hash_function_of_current_contents
+  intro _ _ r _
+  rw [view_write, view_write]
+  by_cases hq : r.loc.path = p
+  · simp [hq, hx]
+  · simp [hq]
+
+/-- renaming a file is removing it and writing its contents at the new path (time and inode are free) -/
+theorem hash_after_rename (md5 : S → S) (fuzzy : Bool) (bps : Blueprints) (cs : List SComp) (fs : Fs)
+    (a b c : S) (t i t' i' : Nat) (ha : lookupFs fs a = some (.file c t i)) (hab : a ≠ b) :
+    hashesFs md5 fuzzy bps (step fs (.rename a b)) cs =
+      hashesFs md5 fuzzy bps (step (step fs (.remove a)) (.write b c t' i')) cs := by
+  apply hash_function_of_current_contents
+  intro _ _ r _
+  rw [view_rename fs a b c t i ha hab, view_write]
+  by_cases hq : r.loc.path = b
+  · simp [hq]
+  · simp only [hq, if_false, step, view_remove]
+
+/-- the paths an operation touches -/
+def _root_.St4sd.Hash.Op.paths : Op → List S
+  | .write p _ _ _ => [p]
+  | .touch p _ => [p]
+  | .remove p => [p]
+  | .rename a b => [a, b]
+  | .reload => []
+
+private theorem view_step_other (fs : Fs) (op : Op) (q : S) (h : q ∉ op.paths) : view (step fs op) q = view fs q := by
+  cases op with
+  | write p c t i =>
+    have : q ≠ p := by simpa [Op.paths] using h
+    rw [view_write, if_neg this]
+  | touch p t => exact view_touch fs p t q
+  | remove p =>
+    have : q ≠ p := by simpa [Op.paths] using h
+    simp only [step, view_remove, if_neg this]
+  | rename a b =>
+    have hq : q ≠ a ∧ q ≠ b := by simpa [Op.paths] using h
+    cases hl : lookupFs fs a with
+    | none => simp only [step, hl]
+    | some n =>
+      cases n with
+      | dir => simp only [step, hl]
+      | file c t i =>
+        by_cases hab : a = b
+        · subst hab; simp [step, hl]
+        · rw [view_rename fs a b c t i hl hab, if_neg hq.2, if_neg hq.1]
+  | reload => rfl
+
+/-- **frame**: an operation on paths no component refers to changes no hash -/
+theorem hash_unaffected_by_unreferenced_paths (md5 : S → S) (fuzzy : Bool) (bps : Blueprints) (cs : List SComp)
+    (fs : Fs) (op : Op) (h : ∀ c ∈ cs, ∀ r ∈ c.refs, r.loc.path ∉ op.paths) :
+    hashesFs md5 fuzzy bps (step fs op) cs = hashesFs md5 fuzzy bps fs cs :=
+  hash_function_of_current_contents md5 fuzzy bps cs _ _ (fun c hc r hr => view_step_other fs op _ (h c hc r hr))
+
+/-! #### … and the hash does follow the contents -/
+
+private theorem mkInfo_files (md5 : S → S) (fuzzy : Bool) (bps : Blueprints) (ph : Nat → Option S) (c : Comp)
+    (i : Info) (hi : mkInfo md5 fuzzy bps ph c = some i) :
+    ∃ E, fileEntries md5 fuzzy ph (sortRefs c.refs) = some E ∧ i.files = E.map es := by
+  simp only [mkInfo] at hi
+  cases hb : lookupBp bps (c.stage, blueprintName bps c) with
+  | none => simp [hb] at hi
+  | some exe =>
+    simp only [hb, infoCore] at hi
+    cases h1 : fileEntries md5 fuzzy ph (sortRefs c.refs) with
+    | none => simp [h1] at hi
+    | some E =>
+      simp only [h1] at hi
+      cases ha : replaceRefs fuzzy (tokens c.args) E ph (sortRefs c.refs) c.args with
+      | none => simp [ha] at hi
+      | some a =>
+        simp only [ha, Option.some.injEq] at hi
+        subst hi
+        exact ⟨E, rfl, rfl⟩
+
+/-- **The file entries follow the contents.**  A component consumes the file at the location of `r` through a
+reference that reads contents (`Sensitive`: any file for the strong hash, a file not produced by a component
+of the graph for the fuzzy hash).  Between two file systems that hold different contents `x ≠ y` there and
+agree at the other paths the component refers to, the entry `md5 x:method` occurs strictly less often in the
+hashed `files` — whatever the lengths of `x` and `y`, the times and inodes, and (strong hash) whatever happened
+to the hashes of the producers. -/
+theorem files_change_after_update (md5 : S → S) (hinj : Function.Injective md5) (fuzzy : Bool) (bps : Blueprints)
+    (ph ph' : Nat → Option S) (hph : fuzzy = true → ph = ph') (c : SComp) (fs fs' : Fs) (r : SRef)
+    (hr : r ∈ c.refs) (x y : S) (hx : view fs r.loc.path = some (some x)) (hy : view fs' r.loc.path = some (some y))
+    (hxy : x ≠ y) (hcx : ':' ∉ md5 x) (hcy : ':' ∉ md5 y) (hs : Sensitive fuzzy r)
+    (hag : ∀ r' ∈ c.refs, r'.loc.path ≠ r.loc.path → view fs r'.loc.path = view fs' r'.loc.path)
+    (i i' : Info) (hi : mkInfo md5 fuzzy bps ph (c.resolve fs) = some i)
+    (hi' : mkInfo md5 fuzzy bps ph' (c.resolve fs') = some i') :
+    i'.files.count (md5 x ++ ':' :: r.method) < i.files.count (md5 x ++ ':' :: r.method) := by
+  obtain ⟨E, hE, hf⟩ := mkInfo_files md5 fuzzy bps ph _ i hi
+  obtain ⟨E', hE', hf'⟩ := mkInfo_files md5 fuzzy bps ph' _ i' hi'
+  have hE'' : fileEntries md5 fuzzy ph (sortRefs (c.resolve fs').refs) = some E' := by
+    cases fuzzy with
+    | true => rw [hph rfl]; exact hE'
+    | false => rw [fileEntries_strong_ph md5 ph ph']; exact hE'
+  have e1 : (c.resolve fs).refs = c.refs.map (SRef.resolve fs) := rfl
+  have e2 : (c.resolve fs').refs = c.refs.map (SRef.resolve fs') := rfl
+  rw [e1, sortRefs_resolve] at hE
+  rw [e2, sortRefs_resolve] at hE''
+  rw [hf, hf', count_fileEntries md5 fuzzy ph _ _ E hE, count_fileEntries md5 fuzzy ph _ _ E' hE'',
+    List.map_map, List.map_map]
+  have hr' : r ∈ sortSRefs c.refs := (mem_sortSRefs r c.refs).mpr hr
+  refine sum_map_lt (sortSRefs c.refs) _ _ ?_ r hr' ?_
+  · intro a ha
+    exact contrib_le md5 hinj fuzzy ph fs fs' r.loc.path x y r.method hcx hcy hx hy hxy a
+      (hag a ((mem_sortSRefs a c.refs).mp ha))
+  · have hnf := fileEntries_no_fail md5 fuzzy ph _ E hE (r.resolve fs) (List.mem_map.mpr ⟨r, hr', rfl⟩)
+    exact contrib_lt md5 hinj fuzzy ph fs fs' x y hcx hcy r hx hy hxy hs hnf
+
+/-- **Different contents, different hash — partial.**  In the situation of `files_change_after_update` the
+strong (fuzzy) hashes computed on the two file systems differ — in particular after a file has been rewritten
+in place with other bytes of the same length within the same second.  Partial for the reasons of
+`same_hash_iff_same_work_partial`: the two infos are `SepFree` and their file entries have the shape the code
+produces (both decidable; known finding C16-serialisation-no-separators otherwise). -/
+theorem hash_changes_after_update_partial (md5 : S → S) (hinj : Function.Injective md5) (fuzzy : Bool)
+    (bps : Blueprints) (hs₁ hs₂ : List (Option S)) (hph : fuzzy = true → hs₁ = hs₂) (c : SComp) (fs fs' : Fs)
+    (r : SRef) (hr : r ∈ c.refs) (x y : S) (hx : view fs r.loc.path = some (some x))
+    (hy : view fs' r.loc.path = some (some y)) (hxy : x ≠ y) (hcx : ':' ∉ md5 x) (hcy : ':' ∉ md5 y)
+    (hs : Sensitive fuzzy r)
+    (hag : ∀ r' ∈ c.refs, r'.loc.path ≠ r.loc.path → view fs r'.loc.path = view fs' r'.loc.path)
+    (i i' : Info) (hi : mkInfo md5 fuzzy bps (getH hs₁) (c.resolve fs) = some i)
+    (hi' : mkInfo md5 fuzzy bps (getH hs₂) (c.resolve fs') = some i') (h₁ : SepFree i) (h₂ : SepFree i')
+    (g₁ : ∀ e ∈ i.files, goodEntry e = true) (g₂ : ∀ e ∈ i'.files, goodEntry e = true) :
+    hashOne md5 fuzzy bps hs₁ (c.resolve fs) ≠ hashOne md5 fuzzy bps hs₂ (c.resolve fs') := by
+  intro e
+  have sw := (same_hash_iff_same_work_partial md5 hinj fuzzy bps bps hs₁ hs₂ _ _ i i' hi hi' h₁ h₂).mp e
+  have hsort := same_work_same_entries i i' g₁ g₂ sw
+  have hlt := files_change_after_update md5 hinj fuzzy bps (getH hs₁) (getH hs₂) (fun h => by rw [hph h]) c fs fs'
+    r hr x y hx hy hxy hcx hcy hs hag i i' hi hi'
+  rw [← count_sortStr _ i.files, ← count_sortStr _ i'.files, hsort] at hlt
+  exact Nat.lt_irrefl _ hlt
+
+private def exInput : SRef :=
+  ⟨"input/a.txt:ref".toList, "input/a.txt:ref".toList, "ref".toList, [], .direct "/i/input/a.txt".toList⟩
+private def exSComp : SComp :=
+  { name := "c".toList, stage := 0, location := [], mtime := 0, replica := none, exe := "/bin/cat".toList,
+    args := "-n input/a.txt:ref".toList, refs := [exInput], backend := .loc }
+private def exFs : Fs := [("/i/input/a.txt".toList, .file "AAA".toList 1700000000 42)]
+
+/-- non-vacuity of `hash_function_of_current_contents`: another time and inode, same contents -/
+example : AgreeOn [exSComp] exFs [("/i/input/a.txt".toList, .file "AAA".toList 5 7)] := by
+  intro c hc r hr
+  simp only [List.mem_singleton] at hc; subst hc
+  simp only [exSComp, List.mem_singleton] at hr; subst hr
+  decide
+
+/-- the class of the seeded cache defect, in the model: the input is rewritten in place with other bytes of the
+same length, same modification time, same inode — the strong and the fuzzy hash both change, and writing the
+old bytes back (at another time) restores them -/
+example :
+    let o := observeHistory (fun x => 'h' :: x) false exBps [exSComp] exFs
+      [.write "/i/input/a.txt".toList "BBB".toList 1700000000 42, .reload,
+       .write "/i/input/a.txt".toList "AAA".toList 1800000000 43]
+    o[0]? ≠ o[1]? ∧ o[1]? = o[2]? ∧ o[0]? = o[3]? ∧ (o[0]?.bind (·[0]?)).isSome = true := by decide
+
+/-- the hypotheses of `hash_changes_after_update_partial` are satisfiable (concrete injective stand-in for md5) -/
+example : hashOne (fun x => 'h' :: x) false exBps [] (exSComp.resolve exFs) ≠
+    hashOne (fun x => 'h' :: x) false exBps []
+      (exSComp.resolve (step exFs (.write "/i/input/a.txt".toList "BBB".toList 1700000000 42))) :=
+  hash_changes_after_update_partial (fun x => 'h' :: x) (fun a b h => by simpa using h) false exBps [] []
+    (fun h => by cases h) exSComp exFs _ exInput (by simp [exSComp]) "AAA".toList "BBB".toList (by decide) (by decide)
+    (by decide) (by decide) (by decide) (.inl rfl)
+    (fun r' hr' hne => by simp only [exSComp, List.mem_singleton] at hr'; subst hr'; exact absurd rfl hne)
+    ⟨none, "-n file:hAAA:ref".toList, "/bin/cat".toList, ["hAAA:ref".toList]⟩
+    ⟨none, "-n file:hBBB:ref".toList, "/bin/cat".toList, ["hBBB:ref".toList]⟩ (by decide) (by decide) (by decide)
+    (by decide) (by decide) (by decide)
 
 end St4sd.C16
